@@ -172,4 +172,6 @@ func init() {
 		"	op, err = b.lease.allocate(ctx, op)\n	if err != nil {", "	op, err = b.lease.allocate(ctx, op)\n	if err != nil && op.Variant != change.VariantDelete {", "C06.ERR")
 	mut("C11", "Arbitrate starts a juror on an invalid configuration when no candidates are configured", "aspen/internal/cluster/pledge/pledge.go",
 		"func Arbitrate(cfgs ...Config) error {\n	cfg, err := config.New(DefaultConfig, cfgs...)\n	if err != nil {", "func Arbitrate(cfgs ...Config) error {\n	cfg, err := config.New(DefaultConfig, cfgs...)\n	if err != nil && cfg.Candidates != nil {", "C11.ERR")
+	mut("C13", "a full subscriber buffer ends the fan-out of that change", "x/go/observe/observe.go",
+		"	msg := asyncMessage[T]{ctx: ctx, val: v}\n	for h := range a.handlers {\n		select {\n		case h.ch <- msg:\n		default:\n", "	msg := asyncMessage[T]{ctx: ctx, val: v}\n	for h := range a.handlers {\n		select {\n		case h.ch <- msg:\n		default:\n			return\n", "C13.R6.fanout")
 }
